@@ -364,6 +364,10 @@ class Model:
         self._tool.function = self._f
 
 
+def make_base(lo, hi):
+    return Base(hi, lo)
+
+
 class Flat(Base):
     def __init__(self, lo, hi):
         self._density = 1.0 / (hi - lo)
@@ -419,5 +423,9 @@ def selfcheck():
         check_shared_defaults(q, 'X', prog, eff, [prog.cls('ex.inst.Model'), prog.cls('ex.inst.Flat')])
         if [k.rsplit('|', 1)[-1] for k in q.fails] != ['shared-default:tool']:
             raise AnalysisError('shared-default rule self-check failed: %s' % q.fails)
+        from ._purity import swapped_arguments
+        sw = [(c_, a_, p_) for call_, c_, a_, p_ in swapped_arguments(prog, prog.modules['ex.inst'])]
+        if sorted(sw) != [('Base', 'hi', 'lo'), ('Base', 'lo', 'hi')]:
+            raise AnalysisError('swapped-argument rule self-check failed: %s' % sw)
     finally:
         shutil.rmtree(d, ignore_errors=True)
